@@ -12,6 +12,22 @@ import (
 
 const pkgBatchProc = modPrefix + "/processor/batchprocessor"
 
+// canReachNoIf: to is reachable from from through unconditional jumps only.
+func canReachNoIf(from, to *ssa.BasicBlock) bool {
+	seen := map[*ssa.BasicBlock]bool{}
+	for b := from; b != nil && !seen[b]; {
+		seen[b] = true
+		if b == to {
+			return true
+		}
+		if len(b.Succs) != 1 {
+			return false
+		}
+		b = b.Succs[0]
+	}
+	return false
+}
+
 func init() {
 	register(&Property{
 		ID:         "C17",
@@ -428,6 +444,43 @@ func runC17(c *Ctx) {
 				}
 			}
 			c.Check(hdr != nil && okCmp, "size trigger: send while itemCount() >= sendBatchSize", p.Pos(s.Pos()), "loop with the >= comparator", "the size trigger is not a loop on itemCount() >= sendBatchSize (e.g. `>`): a batch is not emitted as soon as send_batch_size items are pending")
+			// without a timer (timeout 0) nothing else would ever flush: the send must be reachable on the no-timer
+			// side without passing the size comparison
+			okNoTimer := false
+			if hdr != nil {
+				for b := range body {
+					iff, ok := b.Instrs[len(b.Instrs)-1].(*ssa.If)
+					if !ok {
+						continue
+					}
+					v, _ := boolOf(Guard{Cond: iff.Cond, Branch: true, If: iff})
+					call, ok := v.(*ssa.Call)
+					if !ok {
+						continue
+					}
+					cf := staticCalleeFn(call)
+					if cf == nil || recvNamedOfFn(cf) != shardT {
+						continue
+					}
+					// a predicate of the shard that reads its timer field
+					readsTimer := false
+					allInstrs(cf, func(in ssa.Instruction) {
+						if fa, ok := in.(*ssa.FieldAddr); ok && namedOf(fa.X.Type()) == shardT && strings.Contains(strings.ToLower(derefStruct(fa.X.Type()).Field(fa.Field).Name()), "timer") {
+							readsTimer = true
+						}
+					})
+					if !readsTimer {
+						continue
+					}
+					// one side of the test reaches the send without another If in between
+					for _, sc := range b.Succs {
+						if sc == s.Block() || (len(sc.Instrs) > 0 && sc.Instrs[len(sc.Instrs)-1] != nil && canReachNoIf(sc, s.Block())) {
+							okNoTimer = true
+						}
+					}
+				}
+			}
+			c.Check(okNoTimer, "size trigger: without a timer every arrival is sent at once", p.Pos(s.Pos()), "the no-timer side of the loop condition reaches the send without the size comparison", "the send loop is entered only through the size comparison: with `timeout: 0` (no timer exists) items below send_batch_size are never flushed until shutdown")
 		}
 		// re-arm only after a send
 		for _, ci := range calls(fn, func(ci ssa.CallInstruction) bool {
@@ -564,6 +617,7 @@ func runC17(c *Ctx) {
 	if nsplit < 3 {
 		c.Undecided("batch split sites", "-", fmt.Sprintf("%d found (expected 3)", nsplit))
 	}
+	runC17Metadata(c)
 }
 
 func entryInstrOf(b *ssa.BasicBlock) ssa.Instruction { return b.Instrs[0] }
